@@ -199,3 +199,18 @@ def write_gaf(path, lines, mode="plain", rng=None, layout="standard"):
         w.close()
         return None
     return bgzf.write_bgzf(path, text.encode(), rng=rng, layout=layout)
+
+
+def text_variant(lines, rng, p=0.15):
+    """text-level variants every reader accepts today: CRLF line ends and/or a non-ASCII (multi-byte
+    UTF-8) character in an optional field. Returns (lines, kind or None)."""
+    if rng.random() >= p:
+        return lines, None
+    kind = rng.choice(["crlf", "utf8", "both"])
+    lines = list(lines)
+    if kind in ("utf8", "both"):
+        for i in range(0, len(lines), rng.randint(1, 5)):
+            lines[i] = lines[i] + "\tZ9:Z:M\u00fcller\u2713"
+    if kind in ("crlf", "both"):
+        lines = [l + "\r" for l in lines]
+    return lines, kind
